@@ -220,3 +220,107 @@ def run_history(digital_rf, root, files, base_ms, limits, initial, history, name
     shutil.rmtree(root, ignore_errors=True)
     shutil.rmtree(out_root, ignore_errors=True)
     return dict(name=name, cfg=uni.cfg(limits), disk0=disk0, events=w.events, limits=limits, error=err)
+
+
+# ---------------------------------------------------------------------------------------------------------
+# exhaustive exploration of the IMPLEMENTATION's state space over a small universe (E2, bisimulation up to depth D)
+# ---------------------------------------------------------------------------------------------------------
+def _freeze(pr):
+    return (tuple(pr["disk"]), tuple(pr["rec"]), tuple(tuple(q) for q in pr["queue"]), pr["active"])
+
+
+def restore(w, st):
+    """put the real handler and the scratch tree into a previously projected state"""
+    import collections
+
+    disk, rec, queue, active = st
+    uni = w.uni
+    for i, sz in enumerate(disk):
+        p = uni.path(i + 1)
+        if sz:
+            os.makedirs(os.path.dirname(p), exist_ok=True)
+            with open(p, "wb") as fh:
+                fh.write(b"x" * sz)
+        elif os.path.exists(p):
+            os.remove(p)
+    h = w.h
+    h.records.clear()
+    h.queues.clear()
+    FileRecord = h.FileRecord
+    for i, sz in enumerate(rec):
+        if sz != -1:
+            p = uni.path(i + 1)
+            r = h._get_file_record(p) if os.path.exists(p) else None
+            grp = r.group if r else _group_of(h, p)
+            key = r.key if r else _key_of(h, p)
+            h.records[p] = FileRecord(key=key, size=sz, path=p, group=grp)
+    for g, q in enumerate(queue):
+        for f in q:
+            p = uni.path(f)
+            r = h.records[p]
+            h.queues[r.group].append((r.key, p))
+    if w.has_size:
+        h.active_size = active
+    w.events = []
+
+
+def _match(h, path):
+    for r in h.regexes:
+        m = r.match(path)
+        if m and "secs" in m.groupdict():
+            return m
+    return None
+
+
+def _group_of(h, path):
+    m = _match(h, path)
+    return (m.group("chpath"), m.group("name"))
+
+
+def _key_of(h, path):
+    m = _match(h, path)
+    frac = m.groupdict().get("frac")
+    return int(m.group("secs")) * 1000 + (int(frac) if frac else 0)
+
+
+def explore(digital_rf, root, files, base_ms, limits, initial, actions, depth, max_states, name):
+    """BFS over the implementation's projected states; returns one single-event scenario per (state, action)"""
+    if os.path.exists(root):
+        shutil.rmtree(root)
+    uni = Universe(root, files, base_ms)
+    w = RbWorld(digital_rf, uni, limits)
+    for f, sz in initial:
+        w.write(f, sz)
+    init = _freeze({k: v for k, v in w.project().items() if k != "foreign"})
+    seen = {init}
+    frontier = [init]
+    scen = []
+    cfg = uni.cfg(limits)
+    for d in range(depth):
+        nxt = []
+        for st in frontier:
+            for act in actions:
+                restore(w, st)
+                try:
+                    ev = w.step(dict(act))
+                except Exception as e:  # noqa: BLE001
+                    ev = dict(act)
+                    ev.update(a="Raised", what="%s: %s" % (type(e).__name__, e))
+                if ev is None:
+                    continue
+                hdr = dict(name="%s-d%d-%d" % (name, d, len(scen)), cfg=cfg, disk0=list(st[0]), rec0=list(st[1]),
+                           queue0=[list(q) for q in st[2]], active0=st[3], events=[ev], limits=limits)
+                scen.append(hdr)
+                if ev["a"] == "Raised":
+                    continue
+                pr = w.project()
+                pr.pop("foreign")
+                ns = _freeze(pr)
+                if ns not in seen and len(seen) < max_states:
+                    seen.add(ns)
+                    nxt.append(ns)
+        frontier = nxt
+    shutil.rmtree(root, ignore_errors=True)
+    out = os.path.join(os.path.dirname(root), "outside_" + os.path.basename(root))
+    shutil.rmtree(out, ignore_errors=True)
+    return scen, len(seen)
